@@ -33,6 +33,20 @@ CLAIMED = {
              "The dangling-else shape (if-else whose then-branch ends in an else-less if) is excluded from generation because its text denotes another tree.",
         technique="Lean 4 proof (mutual structural induction with flag invariants) + model/implementation correspondence",
         design="§4 C06"),
+    "C14": dict(
+        text="Lean reference lexer (alpha's lexer arm by arm) with theorems: every fixed spelling (punctuation, keywords, type "
+             "names: complete table) and every integer literal spelling (decimal / 0x / 0b, any `_` separator placement, any "
+             "of the 11 suffixes, any value) followed by a non-extending character is cut off as exactly that token with "
+             "exactly its characters as span at any line/column/offset; 129-bit literals give E140. Both real lexers are "
+             "compared with the reference on all strings of length <= 3 over a 48-character alphabet and random token "
+             "sequences. Partial: string/char escapes, identifiers and the token-sequence (whole-line) composition are "
+             "covered by correspondence only.",
+        note="Trusted: Lean kernel (propext, Quot.sound, Classical.choice at most), transcription of alpha/lexer.rs (checked exactly, "
+             "incl. spans, by correspondence), harness token dump of both real lexers. Delta is compared on kinds/payloads/suffix "
+             "types/exact spans of proper tokens and on code+line of error tokens; seven divergence classes are known findings "
+             "(F9a-g) and are excluded from the delta comparison by syntactic class, each probed on every run.",
+        technique="Lean 4 proof (scanner lemmas, kernel-checked complete tables) + three-way lexer correspondence",
+        design="§4 C14"),
 }
 
 NOT_APPLICABLE = {}
